@@ -62,6 +62,7 @@ type driver struct {
 	nreq      int
 	reordered bool
 	failed    bool
+	noCase    bool // the rest of the history is checked by the direct oracles only
 	label     string
 }
 
@@ -426,7 +427,7 @@ func (d *driver) finish(nontrivial bool) {
 	for !d.failed && len(d.live) > 0 {
 		d.replyLive(kRight)
 	}
-	if !d.failed {
+	if !d.failed && !d.noCase {
 		d.r.Case(d.caseSexp(), sx.List(d.obs), d.label, nontrivial)
 	}
 	d.close()
@@ -493,6 +494,12 @@ func wrapHistory(r *rep.Report, rng *prng.R, total int, deplete bool) (requests 
 		}
 	}
 	if deplete && !d.failed {
+		// The history so far goes to the model.  The exhaustion phase is left to
+		// the direct oracles: the model's `len(m)` is linear in the pool, 65535
+		// requests on a pool growing to 65535 would take it many minutes, and the
+		// allocator on full / nearly full pools is model-compared by the alloc cases.
+		d.r.Case(d.caseSexp(), sx.List(d.obs), d.label, true)
+		d.noCase = true
 		// abandon calls until the pool is exhausted: 65535 tags outstanding
 		// (one call stays pending: it is the barrier after the late reply below)
 		d.req(120, false)
@@ -532,15 +539,25 @@ func (d *driver) replyAbandoned2(rng *prng.R) {
 	i := rng.Intn(len(d.abandoned))
 	tag := d.abandoned[i]
 	d.abandoned = append(d.abandoned[:i], d.abandoned[i+1:]...)
-	if len(d.live) > 0 {
-		d.replyTag(tag, kRight)
-		d.replyLive(kRight)
-	} else {
+	if len(d.live) == 0 {
 		return
 	}
+	// the barrier frees a second tag: that of the pending call answered after the late reply
+	before := map[uint16]bool{}
+	for _, c := range d.liveList() {
+		before[d.tagOf[c]] = true
+	}
+	d.replyTag(tag, kRight)
+	d.replyLive(kRight)
+	free := map[uint16]bool{tag: true}
+	for t := range before {
+		if _, still := d.awaiting[t]; !still {
+			free[t] = true
+		}
+	}
 	d.req(120, false)
-	if !d.failed && d.tagOf[d.nextCall-1] != tag {
-		d.fail("transport.allocateTag:exhausted-pool", fmt.Sprintf("the only free tag is %d but the call got %d", tag, d.tagOf[d.nextCall-1]))
+	if got := d.tagOf[d.nextCall-1]; !d.failed && !free[got] {
+		d.fail("transport.allocateTag:exhausted-pool", fmt.Sprintf("the free tags are %v but the call got %d", free, got))
 	}
 }
 
